@@ -1,7 +1,258 @@
 (* C01 -- property theorems only. *)
-From CppcmsV Require Import Base.Tac Base.Sweep C15.Defs C01.Defs C01.Proofs.
+From Coq Require Import String.
+From CppcmsV Require Import Base.Tac Base.Sweep C15.Defs C01.Defs C01.HttpSpec C01.HttpSeg C01.Chunked C01.ChunkedProofs C01.Enc C01.EncProofs C01.EncProofs2 C01.Conn C01.ConnProofs C01.Examples C01.Proofs Base.CSem C01.Link gen.Gen_C01.
 Local Open Scope N_scope.
 
+(* ---------------------------------------------------------------------------------------------------------
+   1. HTTP: the chunk-level reader (one read_some result at a time in the device buffer, parser::step over
+      getc/ungetc with push-back, 16384 byte cap tested when more data is needed) computes exactly what the
+      byte-level machine brun computes on the concatenation of the reads - for EVERY list of reads. *)
+Theorem http_chunk_reader_refines_byte_machine :
+  forall chunks p r total, within_cap total (concat chunks) p r ->
+  obs (hread p r total chunks) =
+  match brun p r (concat chunks) with
+  | BNeedMore _ _ => ONeedMore
+  | BFinished r' rest => ODone r' rest
+  | BError => OError
+  end.
+Proof. exact hread_spec. Qed.
+Print Assumptions http_chunk_reader_refines_byte_machine.
+
+(* segmentation independence: two segmentations of the same byte stream give the same request and leave the same
+   unread bytes for the body reader / the next kept-alive request *)
+Theorem http_seg_indep :
+  forall chunks1 chunks2 p r total,
+  concat chunks1 = concat chunks2 -> within_cap total (concat chunks1) p r ->
+  obs (hread p r total chunks1) = obs (hread p r total chunks2).
+Proof. exact http_seg_indep_lemma. Qed.
+Print Assumptions http_seg_indep.
+
+(* a stream the byte machine rejects is rejected under every segmentation, with or without the cap *)
+Theorem http_error_seg_indep :
+  forall chunks p r total, brun p r (concat chunks) = BError -> hread p r total chunks = CError.
+Proof. exact hread_error. Qed.
+Print Assumptions http_error_seg_indep.
+
+(* the loop fuel of the model is never exhausted: the model never answers with its artificial constructor *)
+Theorem http_model_fuel_unreachable : forall chunks p r total, hread p r total chunks <> COutOfFuel.
+Proof. exact hread_no_fuel. Qed.
+Print Assumptions http_model_fuel_unreachable.
+
+Example http_seg_indep_nonvacuous :
+  concat ex_http_chunks = concat ex_http_bytewise /\ concat ex_http_chunks = ex_http /\
+  within_cap 0 (concat ex_http_chunks) pst0 hreq0 /\
+  exists r, obs (hread pst0 hreq0 0 ex_http_chunks) = ODone r (bs "abcGE"%string) /\
+            obs (hread pst0 hreq0 0 ex_http_bytewise) = ODone r (bs "abcGE"%string) /\
+            meth r = bs "POST"%string /\ uri r = bs "/sync/a%20b?x=1"%string /\ clen r = 3%Z /\
+            env_get (bs "HTTP_X_FOLD"%string) (env r) = Some (bs "a b"%string).
+Proof.
+  split; [vm_compute; reflexivity|]. split; [vm_compute; reflexivity|]. split; [vm_compute; intros H; discriminate H|].
+  eexists. split; [vm_compute; reflexivity|]. repeat split; vm_compute; reflexivity.
+Qed.
+
+(* ---------------------------------------------------------------------------------------------------------
+   2. FastCGI: the reader that takes every byte through the read-ahead cache (read_exact = async_read_from_socket /
+      peek_bytes + read_bytes: serve from the cache, else compact and append the next read_some result) computes
+      the stream-level decoder on the concatenation of the cache content and all future reads. *)
+Theorem fcgi_chunk_reader_refines_stream_decoder :
+  forall c, fcgi_abs (fcgi_decode_c c) = fcgi_decode (stream_of c).
+Proof. exact fcgi_decode_c_spec. Qed.
+Print Assumptions fcgi_chunk_reader_refines_stream_decoder.
+
+Theorem fcgi_seg_indep :
+  forall c1 c2, stream_of c1 = stream_of c2 -> fcgi_abs (fcgi_decode_c c1) = fcgi_abs (fcgi_decode_c c2).
+Proof. exact fcgi_seg_indep_lemma. Qed.
+Print Assumptions fcgi_seg_indep.
+
+(* a read of exactly n bytes through the cache returns the next n bytes of the stream and leaves the rest, for every
+   cache content and every segmentation of the future reads (the buffer hand-over cache_start_/cache_end_) *)
+Theorem fcgi_cache_read_exact :
+  forall n c, (n <= length (stream_of c))%nat ->
+  exists c', read_exact (cfuel c) n c = Some (firstn n (stream_of c), c') /\ stream_of c' = skipn n (stream_of c).
+Proof. exact read_exact_some. Qed.
+Print Assumptions fcgi_cache_read_exact.
+
+(* FastCGI decode inverts encode for EVERY record layout: PARAMS and STDIN cut anywhere into records of 1..65535
+   bytes, every padding 0..255, any request id; rest = the bytes of the next request on a kept connection. *)
+Theorem fcgi_decode_encode :
+  forall rid flags pad0 pl pend sl send e body rest,
+  rid < 65536 -> pad0 < 256 -> pend < 256 -> send < 256 -> flags < 256 ->
+  layout_ok pl -> layout_ok sl ->
+  layout_data pl = enc_pairs e -> env_ok e -> N.of_nat (length (enc_pairs e)) < 16384 ->
+  layout_data sl = body -> Z.to_nat (env_clen e) = length body ->
+  fcgi_decode (enc_fcgi rid flags pad0 pl pend sl send ++ rest) = FOk (N.odd flags) e body rest.
+Proof. exact fcgi_decode_enc. Qed.
+Print Assumptions fcgi_decode_encode.
+
+Theorem fcgi_layout_indep :
+  forall rid flags e body pad0 pl pend sl send pad0' pl' pend' sl' send' rest,
+  rid < 65536 -> flags < 256 -> env_ok e -> N.of_nat (length (enc_pairs e)) < 16384 ->
+  Z.to_nat (env_clen e) = length body ->
+  pad0 < 256 -> pend < 256 -> send < 256 -> layout_ok pl -> layout_ok sl ->
+  layout_data pl = enc_pairs e -> layout_data sl = body ->
+  pad0' < 256 -> pend' < 256 -> send' < 256 -> layout_ok pl' -> layout_ok sl' ->
+  layout_data pl' = enc_pairs e -> layout_data sl' = body ->
+  fcgi_decode (enc_fcgi rid flags pad0 pl pend sl send ++ rest)
+  = fcgi_decode (enc_fcgi rid flags pad0' pl' pend' sl' send' ++ rest).
+Proof. exact fcgi_layout_indep_lemma. Qed.
+Print Assumptions fcgi_layout_indep.
+
+Theorem fcgi_pairs_roundtrip :
+  forall e, env_ok e -> parse_pairs (S (length (enc_pairs e))) (enc_pairs e) = e.
+Proof. exact parse_pairs_roundtrip. Qed.
+Print Assumptions fcgi_pairs_roundtrip.
+
+Example fcgi_nonvacuous :
+  layout_ok ex_plA /\ layout_ok ex_plB /\ layout_ok ex_slA /\ layout_ok ex_slB /\
+  layout_data ex_plA = enc_pairs ex_env /\ layout_data ex_plB = enc_pairs ex_env /\
+  layout_data ex_slA = ex_body /\ layout_data ex_slB = ex_body /\
+  env_ok ex_env /\ N.of_nat (length (enc_pairs ex_env)) < 16384 /\ Z.to_nat (env_clen ex_env) = length ex_body /\
+  ex_fcgiA <> ex_fcgiB /\
+  fcgi_decode (ex_fcgiA ++ ex_next) = FOk true ex_env ex_body ex_next /\
+  fcgi_decode (ex_fcgiB ++ ex_next) = FOk true ex_env ex_body ex_next /\
+  concat ex_fcgi_chunks = ex_fcgiB ++ ex_next /\
+  fcgi_abs (fcgi_decode_c (cache_of ex_fcgi_chunks)) = FOk true ex_env ex_body ex_next.
+Proof.
+  do 4 (split; [apply layout_okb_ok; vm_compute; reflexivity|]).
+  do 4 (split; [vm_compute; reflexivity|]).
+  split; [apply env_okb_ok; vm_compute; reflexivity|].
+  split; [vm_compute; reflexivity|]. split; [vm_compute; reflexivity|].
+  split; [vm_compute; intros H; discriminate H|].
+  split; [vm_compute; reflexivity|]. split; [vm_compute; reflexivity|]. split; vm_compute; reflexivity.
+Qed.
+
+(* ---------------------------------------------------------------------------------------------------------
+   3. SCGI: reads of exactly 16 and then exactly size-16 bytes over any segmentation = the stream-level decoder;
+      the decoder inverts the netstring encoder. *)
+Theorem scgi_chunk_reader_refines_stream_decoder :
+  forall c, scgi_abs (scgi_decode_c c) = scgi_decode (stream_of c).
+Proof. exact scgi_decode_c_spec. Qed.
+Print Assumptions scgi_chunk_reader_refines_stream_decoder.
+
+Theorem scgi_seg_indep :
+  forall c1 c2, stream_of c1 = stream_of c2 -> scgi_abs (scgi_decode_c c1) = scgi_abs (scgi_decode_c c2).
+Proof. exact scgi_seg_indep_lemma. Qed.
+Print Assumptions scgi_seg_indep.
+
+(* num = the decimal length as written by the peer: any digit string without a colon that atoi reads as the
+   length of the header block *)
+Theorem scgi_decode_encode :
+  forall num e body,
+  ~ In 58 num -> (length num <= 15)%nat -> atoi num = Z.of_nat (length (enc_scgi_blob e)) ->
+  N.of_nat (length (enc_scgi_blob e)) <= 16384 -> (16 < length num + 2 + length (enc_scgi_blob e))%nat ->
+  scgi_env_ok e ->
+  scgi_decode (enc_scgi num e body) = SOk e body.
+Proof. exact scgi_decode_enc. Qed.
+Print Assumptions scgi_decode_encode.
+
+Example scgi_nonvacuous :
+  ~ In 58 (bs "110"%string) /\ atoi (bs "110"%string) = Z.of_nat (length (enc_scgi_blob ex_scgi_env)) /\
+  scgi_env_ok ex_scgi_env /\
+  scgi_decode ex_scgi = SOk ex_scgi_env ex_body /\ concat ex_scgi_chunks = ex_scgi /\
+  scgi_abs (scgi_decode_c (cache_of ex_scgi_chunks)) = SOk ex_scgi_env ex_body.
+Proof.
+  split; [vm_compute; intros [H|[H|[H|[]]]]; discriminate H|].
+  split; [vm_compute; reflexivity|].
+  split; [apply scgi_env_okb_ok; vm_compute; reflexivity|].
+  split; [vm_compute; reflexivity|]. split; vm_compute; reflexivity.
+Qed.
+
+(* ---------------------------------------------------------------------------------------------------------
+   4. GET / POST forms: parse_form_urlencoded inverts the urlencoded form encoder (names non-empty) *)
+Theorem form_roundtrip :
+  forall l, Forall form_item_ok l -> parse_form (enc_form l) = l /\ parse_post_form (enc_form l) = l.
+Proof. exact parse_form_roundtrip. Qed.
+Print Assumptions form_roundtrip.
+
+Example form_nonvacuous :
+  Forall form_item_ok [(bs "a b"%string, bs "1&2=3"%string); (bs "k"%string, []); ([255; 0], [37; 43])] /\
+  enc_form [(bs "a b"%string, bs "1&2=3"%string); (bs "k"%string, [])] = bs "a%20b=1%262%3d3&k="%string.
+Proof.
+  split; [apply form_okb_ok; vm_compute; reflexivity|vm_compute; reflexivity].
+Qed.
+
+(* ---------------------------------------------------------------------------------------------------------
+   5. Keep-alive.  HTTP: the connection model (header reader, process_request, body taken first from the read buffer
+      then from further reads, next request starting on what is left in the buffer) equals the stream-level
+      specification for every segmentation, as long as no request has more than 16385 header bytes (IOverCap marks
+      the one situation in which the real reader depends on the segmentation: see docs/C01.md). *)
+Theorem http_keepalive_conn_refines_stream :
+  forall fuel names chunks,
+  ~ In IOverCap (http_stream fuel names (concat chunks)) ->
+  http_conn fuel names chunks = http_stream fuel names (concat chunks).
+Proof. exact http_conn_stream. Qed.
+Print Assumptions http_keepalive_conn_refines_stream.
+
+Theorem http_keepalive_seg_indep :
+  forall fuel names chunks1 chunks2,
+  concat chunks1 = concat chunks2 ->
+  ~ In IOverCap (http_stream fuel names (concat chunks1)) ->
+  http_conn fuel names chunks1 = http_conn fuel names chunks2.
+Proof. exact http_conn_seg_indep_lemma. Qed.
+Print Assumptions http_keepalive_seg_indep.
+
+(* hand-over: a delivered request is followed by the decoding of exactly the bytes after its body *)
+Theorem http_keepalive_handover :
+  forall f names s r rest v,
+  brun pst0 hreq0 s = BFinished r rest -> consumed s rest <= 16385 ->
+  process_request names r = POk v -> (0 <= v_clen v <= cl_limit)%Z ->
+  (Z.to_nat (v_clen v) <= length rest)%nat ->
+  http_stream (S f) names s =
+  IReq v (firstn (Z.to_nat (v_clen v)) rest)
+  :: match skipn (Z.to_nat (v_clen v)) rest with [] => [] | l => http_stream f names l end.
+Proof. exact http_stream_keepalive_lemma. Qed.
+Print Assumptions http_keepalive_handover.
+
+Theorem http_conn_fuel_unreachable :
+  forall fuel names s, (length s < fuel)%nat -> ~ In IFuel (http_stream fuel names s).
+Proof. exact http_stream_fuel. Qed.
+Print Assumptions http_conn_fuel_unreachable.
+
+(* FastCGI: the chunk-level connection equals the stream-level one, and k requests sent back to back on one kept
+   connection, each with its own record layout, paddings and request id, are all delivered as encoded *)
+Theorem fcgi_keepalive_conn_refines_stream :
+  forall fuel c, fcgi_conn_c fuel c = fcgi_conn fuel (stream_of c).
+Proof. exact fcgi_conn_c_spec. Qed.
+Print Assumptions fcgi_keepalive_conn_refines_stream.
+
+Theorem fcgi_keepalive_faithful :
+  forall qs fuel,
+  Forall freq_ok qs -> Forall (fun q => N.odd (q_flags q) = true) qs -> (length qs <= fuel)%nat -> qs <> [] ->
+  fcgi_conn fuel (flat_map enc_freq qs) = map (fun q => FIReq true (q_env q) (q_body q)) qs.
+Proof. exact fcgi_keepalive_lemma. Qed.
+Print Assumptions fcgi_keepalive_faithful.
+
+Example keepalive_nonvacuous :
+  (exists v1 v2, http_conn 10 ex_names ex_http2_chunks = [IReq v1 (bs "abc"%string); IReq v2 []] /\
+                 v_path_info v1 = bs "/a b"%string /\ v_path_info v2 = bs "/z"%string /\
+                 ~ In IOverCap (http_stream 10 ex_names (concat ex_http2_chunks))) /\
+  fcgi_conn_c 5 (cache_of [ex_fcgiB; firstn 20 ex_fcgiA; skipn 20 ex_fcgiA])
+  = [FIReq true ex_env ex_body; FIReq true ex_env ex_body].
+Proof.
+  split; [|vm_compute; reflexivity].
+  eexists. eexists. split; [vm_compute; reflexivity|].
+  split; [vm_compute; reflexivity|]. split; [vm_compute; reflexivity|].
+  vm_compute. intros [H|[H|[]]]; discriminate H.
+Qed.
+
+(* ---------------------------------------------------------------------------------------------------------
+   environment values handed to the application are C strings *)
 Theorem env_values_are_c_strings : forall s, forallb (fun c => negb (c =? 0)) (cstr s) = true.
 Proof. exact cstr_no_nul. Qed.
 Print Assumptions env_values_are_c_strings.
+
+(* ---------------------------------------------------------------------------------------------------------
+   6. Tie to the source: leaf predicates regenerated from private/http_protocol.h by tools/cxx2v.py on every run
+      equal the model's leafs on all 256 bytes (the char parameter is signed: wraps 8). *)
+Theorem tie_separator : forall b, b < 256 -> g_separator (wraps 8 (Z.of_N b)) = separator b.
+Proof. exact link_separator. Qed.
+Print Assumptions tie_separator.
+Theorem tie_token_char : forall b, b < 256 -> g_token_char (wraps 8 (Z.of_N b)) = token_char b.
+Proof. exact link_token_char. Qed.
+Print Assumptions tie_token_char.
+Theorem tie_xdigit : forall b, b < 256 -> g_xdigit1 (wraps 8 (Z.of_N b)) = xdigit b.
+Proof. exact link_xdigit. Qed.
+Print Assumptions tie_xdigit.
+Theorem tie_ascii_to_lower : forall b, b < 256 -> Z.to_N (wrapu 8 (g_ascii_to_lower (wraps 8 (Z.of_N b)))) = lower b.
+Proof. exact link_lower. Qed.
+Print Assumptions tie_ascii_to_lower.
